@@ -223,8 +223,8 @@ pub fn describe_kiki_token(t: &kiki::data::token::Token) -> (Kind, String, usize
     }
 }
 
-/// The 28-symbol alphabet of C07(a)/C08: one representative per lexer character class and UTF-8 length.
-pub const ALPHABET: [&str; 28] = ["a", "Z", "_", "9", "$", ":", ",", "(", ")", "{", "}", "<", ">", "[", "]", "#", "/", " ", "\n", "\r", "\u{2003}", "é", "€", "😀", "-", "\"", "start", "enum"];
+/// The 30-symbol alphabet of C07(a)/C08 (all five reserved words: `_`, start, enum, struct, terminal): one representative per lexer character class and UTF-8 length.
+pub const ALPHABET: [&str; 30] = ["a", "Z", "_", "9", "$", ":", ",", "(", ")", "{", "}", "<", ">", "[", "]", "#", "/", " ", "\n", "\r", "\u{2003}", "é", "€", "😀", "-", "\"", "start", "enum", "struct", "terminal"];
 
 /// Calls `f` on every string of at most `max_len` symbols over `alphabet` that starts with `prefix`.
 pub fn for_each_string(alphabet: &[&str], max_len: usize, prefix: &[usize], f: &mut dyn FnMut(&str)) {
